@@ -221,32 +221,119 @@ def generated_modules(pool):
         for i in range(0, len(l), 3):
             if len(l[i:i + 3]) >= 2:
                 mods.append("\n\n".join(l[i:i + 3]))
-    # explicit multi-candidate family: two and three distinct overused constants, function on line 1
-    c1, c2, c3 = "{'host': 'localhost', 'port': 8080}", "('alpha', 'beta', 'gamma', 'delta')", "[10, 20, 30, 40, 50, 60]"
-    for consts in ([c1, c2], [c1, c2, c3]):
-        body = "".join(f"    v{i}_{j} = q({c})\n" for i, c in enumerate(consts) for j in range(5))
-        mods.append("def f(q):\n" + body + "    return v0_0\n")
-        mods.append("import os\n\n\ndef f(q):\n" + body + "    return v0_0\n\n\nprint(f(len), os.sep)\n")
-    mods.append("def f():\n" + "".join(f"    a{i} = 'some/long/constant/string/value'\n" for i in range(6)) + "    return a0\n")
+    mods += explicit_family()
     return mods
+
+
+def explicit_family():
+    """Multi-candidate modules that survive format_code (everything is used): two and three distinct overused
+    constants that get generated names, in a function starting on line 1 / after an import; several
+    independent candidates of the same rule in one scope."""
+    c1, c2, c3 = "{'host': 'localhost', 'port': 8080}", "('alpha', 'beta', 'gamma', 'delta')", "[10, 20, 30, 40, 50, 60]"
+    out = []
+    for consts in ([c1, c2], [c1, c2, c3], [c3, c1]):
+        body = "".join(f"    v{i}_{j} = q({c})\n" for i, c in enumerate(consts) for j in range(5))
+        ret = "    return " + ", ".join(f"v{i}_{j}" for i in range(len(consts)) for j in range(5)) + "\n"
+        out.append("def f(q):\n" + body + ret + "\n\nprint(f(len))\n")
+        out.append("import os\n\n\ndef f(q):\n" + body + ret + "\n\nprint(f(len), os.sep)\n")
+    out.append("def f():\n" + "".join(f"    a{i} = 'some/long/constant/string/value'\n" for i in range(6))
+               + "    return a0, a1, a2, a3, a4, a5\n\n\nprint(f())\n")
+    out.append("def f(q):\n" + "".join(f"    a{i} = q('some/long/constant/string/value', {c2})\n" for i in range(6))
+               + "    return a0, a1, a2, a3, a4, a5\n\n\nprint(f(len))\n")
+    # several bounds in the same direction on one comprehension (F06-4)
+    out.append("y = [x for x in range(10) if x > 3 if x > 5]\nz = [x for x in range(20) if x < 7 if x < 9 if x <= 5]\nprint(y, z)\n")
+    return out
+
+
+def disturb_heap(rnd):
+    """Objects of every pymalloc size class (and some above), in random numbers: what is parsed next lands on
+    other addresses, so sets of ast nodes iterate in another order."""
+    keep = [[bytes(size) + b"" for _ in range(rnd.randint(0, 40))] for size in range(0, 520, 8)]
+    keep.append([ast.Name(id="x") for _ in range(rnd.randint(0, 1500))])
+    keep.append([{} for _ in range(rnd.randint(0, 60))])
+    keep.append([object() for _ in range(rnd.randint(0, 500))])
+    return keep
+
+
+class YieldProbe:
+    """Wraps processing._schedule_rewrites for one call: records the sequence of yields of every rule function
+    and tests whether scheduling the SAME yields in reversed order would change the text of the pass
+    (R06.2: only then can the order in which a rule walks a set matter)."""
+
+    def __init__(self, mods):
+        self.processing, self.core = mods["processing"], mods["core"]
+        self.orig = self.processing._schedule_rewrites
+        self.signature = []          # per scheduling call: per function: [(start, end, text, explicit transaction)]
+        self.sensitive = False
+
+    def __enter__(self):
+        self.processing._schedule_rewrites = self.wrapped
+        return self
+
+    def __exit__(self, *exc):
+        self.processing._schedule_rewrites = self.orig
+
+    def wrapped(self, source, funcs):
+        mats = []
+        for (func, args, kwargs) in funcs:
+            mats.append((func, list(func(*args, **kwargs))))
+
+        def replay(items, name):
+            def gen(*_a, **_k):
+                yield from items
+            gen.__name__ = name
+            return gen
+
+        def sched(order):
+            return self.orig(source, [(replay(order(items), f.__name__), [source], {}) for f, items in mats])
+
+        base = sched(lambda items: items)
+        sig = []
+        for f, items in mats:
+            row = []
+            for it in items:
+                try:
+                    old, new = it[0], it[1]
+                    rng = old if isinstance(old, self.core.Range) else self.core.get_charnos(new if old is None else old, source)
+                    text = new if isinstance(new, str) or new is None else self.core.unparse(new)
+                    row.append((rng[0], rng[1], text or "", it[2] if len(it) > 2 else None))
+                except Exception:  # noqa
+                    row.append(("?",))
+            sig.append((f.__name__, row))
+        self.signature.append(sig)
+        if any(len(items) > 1 for _, items in mats):
+            try:
+                rev = sched(lambda items: items[::-1])
+                a = self.processing._apply_rewrites(source, base)
+                b = self.processing._apply_rewrites(source, rev)
+                if a != b:
+                    self.sensitive = True
+            except Exception:  # noqa
+                self.sensitive = True
+        return base
 
 
 def job_perturb(job):
     """In a fork of the pristine zygote: run each call `reps` times; between the runs all caches are cleared
-    and the heap is disturbed, so that freshly parsed nodes land on other addresses."""
+    and the heap is disturbed, so that freshly parsed nodes land on other addresses.  Per call: the results,
+    whether the order of the yields was the same in all runs, whether reversing the yields changes the text."""
     mods = c05.MODS
     rnd = random.Random(job["seed"])
     keep = []
     out = []
     for op in job["ops"]:
-        results = []
-        for _ in range(job["reps"]):
+        results, sigs, sensitive = [], [], False
+        for _ in range(job["reps"] if op not in job.get("more", []) else job["more_reps"]):
             c05.clear_all_caches()
-            keep = [ast.Name(id="x") for _ in range(rnd.randint(0, 3000))] + [object() for _ in range(rnd.randint(0, 700))]
-            if rnd.random() < 0.5:
-                keep = keep[::2]
-            results.append(c05.run_op(mods, op))
-        out.append(results)
+            keep = disturb_heap(rnd)
+            if job.get("probe") and op[0] == "rule":
+                with YieldProbe(mods) as probe:
+                    results.append(c05.run_op(mods, op))
+                sigs.append(json.dumps(probe.signature, default=str))
+                sensitive = sensitive or probe.sensitive
+            else:
+                results.append(c05.run_op(mods, op))
+        out.append({"results": results, "stable_yield_order": len(set(sigs)) <= 1, "order_sensitive": sensitive})
     del keep
     return out
 
@@ -343,7 +430,7 @@ def check(run: common.Run):
     mods = c05.MODS
     farm = c05.Farm()                  # pristine forks for the perturbation jobs
     try:
-        _check(run, wd, mods, farm, t_start)
+        c05.fail_closed(run, _check, run, wd, mods, farm, t_start)
     finally:
         farm.close()
 
@@ -375,9 +462,12 @@ def _check(run, wd, mods, farm, t_start):
         fsrc_used, gen_used, seeds = fsrc, gen, list(range(12))
     fmt_inputs = fsrc_used + gen_used
     code_job = {"repo": str(common.REPO), "mode": "code", "format": fmt_inputs, "rules": rules}
-    ex = ThreadPoolExecutor(max_workers=min(8, len(seeds) + 6))
+    ex = ThreadPoolExecutor(max_workers=8)
+    rule_seeds = [s for s in (range(8) if quick else range(24)) if s not in seeds]     # rules only: cheap
     code_futs = {s: ex.submit(spawn_child, wd, f"code{s}", dict(code_job, junk=[0, 1000, 50000, 7, 333, 90000][s % 6] + s), s)
                  for s in seeds}
+    for s in rule_seeds:
+        code_futs[s] = ex.submit(spawn_child, wd, f"code{s}", dict(code_job, format=[], junk=977 * s), s)
     timing["harvest_s"] = round(time.time() - t0, 1)
 
     # ---- real format_files on generated trees, and package batches (children, background)
@@ -494,7 +584,7 @@ def _check(run, wd, mods, farm, t_start):
     timing["format_files_impl_s"] = round(time.time() - t0, 1)
 
     t0 = time.time()
-    cres = common.run_case_files(files_v)
+    cres = c05.run_case_files_retry(files_v)
     for p, (kind, shard) in zip(files_v, shards):
         rc, out = cres[p]
         idx = common.parse_nat_list(out) if rc == 0 else None
@@ -507,25 +597,47 @@ def _check(run, wd, mods, farm, t_start):
 
     # ---- 3b. in-process allocation perturbation (forked workers)
     t0 = time.time()
-    reps = 2 if quick else 8
+    reps = 2 if quick else 6
+    deep_reps = 10 if quick else 30
     pops = [c05.rec_op(r) for r in pool if _encodable(r)]
     pops += [("format", s, "default") for s in (gen_used if quick else gen)]
+    explicit = [("format", s, "default") for s in explicit_family()]
+    explicit += [("rule", "abstractions.overused_constant", s, (), {"root_is_static": True}) for s in explicit_family()]
+    explicit += [("rule", "symbolic_math.simplify_constrained_range", s, (), {}) for s in explicit_family()[-1:]]
     CH = 60
-    chunks = [pops[i:i + CH] for i in range(0, len(pops), CH)]
-    pres = farm.map([{"kind": "perturb", "ops": ch, "reps": reps, "seed": i, "timeout": 600} for i, ch in enumerate(chunks)])
     n_perturb = 0
-    for ch, (st, *rest) in zip(chunks, pres):
-        if st != "ok":
-            failures.append(("perturbation-job-failed", {"error": rest[0], "first_op": c05.enc(ch[0])}))
-            continue
-        for op, results in zip(ch, rest[0]):
-            n_perturb += len(results)
-            if len({json.dumps(r) for r in results}) > 1:
-                failures.append(("address-dependent-result",
-                                 {"op": c05.enc(op), "results": [r for r in results][:4],
-                                  "site": op[1] if op[0] == "rule" else "format_code",
-                                  "explanation": "the same call gives different results in one process when only the "
-                                                 "addresses of the parsed nodes change (iteration over a set of nodes)"}))
+    order_sensitive, unstable_order = Counter(), Counter()
+    suspicious = []
+
+    def perturb_round(ops, nreps, probe):
+        nonlocal n_perturb
+        chunks = [ops[i:i + CH] for i in range(0, len(ops), CH)]
+        pres = farm.map([{"kind": "perturb", "ops": ch, "reps": nreps, "seed": 7 * i + nreps, "probe": probe, "timeout": 900}
+                         for i, ch in enumerate(chunks)])
+        for ch, (st, *rest) in zip(chunks, pres):
+            if st != "ok":
+                failures.append(("perturbation-job-failed", {"error": rest[0], "first_op": c05.enc(ch[0])}))
+                continue
+            for op, r in zip(ch, rest[0]):
+                results = r["results"]
+                n_perturb += len(results)
+                site = op[1] if op[0] == "rule" else "format_code"
+                if probe:
+                    if r["order_sensitive"]:
+                        order_sensitive[site] += 1
+                    if not r["stable_yield_order"]:
+                        unstable_order[site] += 1
+                    if r["order_sensitive"] and not r["stable_yield_order"]:
+                        suspicious.append(op)       # R06.2 applies and the order really moves: look closer
+                if len({json.dumps(x) for x in results}) > 1:
+                    failures.append(("address-dependent-result",
+                                     {"op": c05.enc(op), "results": sorted({json.dumps(x) for x in results})[:4], "site": site,
+                                      "runs": len(results),
+                                      "explanation": "the same call gives different results in one process when only the "
+                                                     "addresses of the parsed nodes change (iteration over a set of nodes)"}))
+
+    perturb_round(pops, reps, True)
+    perturb_round(explicit + suspicious[:40], deep_reps, False)
     timing["perturbation_s"] = round(time.time() - t0, 1)
 
     # ---- 3a. collect the hash-seed children
@@ -538,7 +650,7 @@ def _check(run, wd, mods, farm, t_start):
             failures.append(("hashseed-child-failed", {"hashseed": s, "error": o["error"]}))
     if "error" not in code_out[ref_seed]:
         ref = code_out[ref_seed]
-        for s in seeds[1:]:
+        for s in seeds[1:] + rule_seeds:
             o = code_out[s]
             if "error" in o:
                 continue
@@ -668,12 +780,14 @@ def _check(run, wd, mods, farm, t_start):
                  {"format_files": fcases[len(fcases) // 2]}, {"generated_module": gen[-1][:300]}],
         exhaustive=False, scheduler_cases=len(items), scheduler_base_groups=len(by_base),
         conflict_free_groups=n_free, conflicting_groups=n_conf, format_files_cases=len(fitems),
-        sweep={"hashseeds": seeds, "format_code_inputs": len(fmt_inputs), "rule_inputs": len(rules),
+        sweep={"hashseeds": seeds, "hashseeds_rules_only": rule_seeds, "suspicious_ops_rerun": len(suspicious),
+               "format_code_inputs": len(fmt_inputs), "rule_inputs": len(rules),
                "generated_modules": len(gen), "comparisons": n_code, "perturbation_calls": n_perturb,
                "perturbation_reps": reps, "trees": len(trees), "tree_comparisons": n_tree_cmp,
                "package_families": sorted(PACKAGE_FAMILIES), "package_runs": len(pkg_futs)},
         corpus_size=len(pool), corpus_harvest=hstats, histogram=dict(hist), timing=timing,
         failure_sites=dict(site_hist), correspondence_disagreements=len(disagreements),
+        yield_order_sensitive_rules=dict(order_sensitive), yield_order_unstable_rules=dict(unstable_order),
         property_oracle_failures=len(failures),
         unmodelled=["real pool interleavings and address-space layout (direct runs only)",
                     "explicit transaction numbers in T06.1 (its hypothesis is one transaction per yield)",
